@@ -117,6 +117,11 @@ def run(tier, seed, replay=None):
                           ("m = {\"k\": {\"j\": 5}}", "m[\"k\"][\"j\"]")):
             for par in ("(%s)", "((%s))"):
                 chains.append((pre + "; a, b = " + item + "; [a, b]", pre + "; a, b = " + (par % item) + "; [a, b]"))
+        # literals denote what is written: every escape sequence of Go's interpreted string literals is either read as Go reads it
+        # or rejected (the language's own escapes - \b \f \n \r \t \\ \" \' - are covered by the literal stream above)
+        escapes = [("\"\\x41\"", "41"), ("\"a\\x41b\"", "614162"), ("\"\\a\"", "07"), ("\"\\v\"", "0b"), ("\"\\u00e9\"", "c3a9"), ("\"\\u4e16\"", "e4b896"),
+                   ("\"\\U0001F600\"", "f09f9880"), ("\"\\101\"", "41"), ("\"\\000\"", "00"), ("\"\\xff\"", "ff"), ("\"x\\x2fy\"", "782f79"),
+                   ("'\\x41'", "41"), ("'\\a'", "07"), ("'\\u00e9'", "c3a9")]
         sf = os.path.join(scratch, "chains.json")
 
         def _wrap(x):
@@ -124,7 +129,7 @@ def run(tier, seed, replay=None):
                 pre, last = x.rsplit("; ", 1)
                 return pre + "; (" + last + ") ?? \"E\""
             return "(%s) ?? \"E\"" % x
-        json.dump([_wrap(x) for pair in chains for x in pair], open(sf, "w"))
+        json.dump([_wrap(x) for pair in chains for x in pair] + [e for e, _ in escapes], open(sf, "w"))
         common.sh([harness, "interp", "-srcfile", sf, "-out", scratch], env=common.GOENV, timeout=600)
         drecs = [json.loads(l) for l in open(os.path.join(scratch, "directed.jsonl"))]
         known, _ = common.known_findings(PID)
@@ -140,6 +145,19 @@ def run(tier, seed, replay=None):
                 continue
             res.violation({"property": PID, "kind": "a chain of binary operators does not read like its left-parenthesised spelling (binary operators are left-associative)",
                            "source": a, "value": [ra["status"], ra.get("result")], "parenthesised": b, "parenthesised_value": [rb["status"], rb.get("result")]})
+        escapes_checked = 0
+        for k, (e, want) in enumerate(escapes):
+            r = drecs[2 * len(chains) + k]["impl"]
+            escapes_checked += 1
+            if r["status"] != "ok" or r.get("result") == "s:" + want:
+                continue      # rejected, or read as Go reads it
+            letter = "s:" + e[1:-1].replace("\\", "").encode().hex()
+            kf = next((f for f in known if f.get("id") == "go-escapes-read-as-the-letter"), None) if r.get("result") == letter else None
+            if kf:
+                res.known(kf["id"], "%s :: the literal %s is read as %s (the backslash dropped); Go reads it as the bytes %s" % (kf["id"], e, r.get("result"), want))
+                continue
+            res.violation({"property": PID, "kind": "a string literal with a Go escape sequence is neither read as Go reads it nor rejected",
+                           "source": e, "value": [r["status"], r.get("result")], "go_value_bytes": want})
         if bad:
             res.violation({"property": PID, "kind": "forbidden construct in the Coq development", "lines": bad}, "no-failing-input-found")
         if ob["failed"] and not res.violations:
@@ -152,6 +170,7 @@ def run(tier, seed, replay=None):
             vals[k] = vals.get(k, 0) + 1
         res.coverage = {
             "operator_chains_against_their_left_parenthesised_spelling": chain_checked,
+            "go_escape_sequences_judged": escapes_checked,
             "obligations": ob["obligations"], "discharged": ob["discharged"], "theorems": ob["theorems"], "axioms": ob["axioms"],
             "closed_under_global_context": ob["closed_count"], "obligation_failures": ob["failed"],
             "checker_cmd": "make -C coq; coqc Properties/C03.v; per run: harness c03 regenerates AnkoGen/GenPrec.v from parser.go.y, coqc Obligations/C03.v; "
